@@ -49,6 +49,7 @@ func correspondence(c *hx.Ctx) {
 		if b.err != nil {
 			continue
 		}
+		regionCase(c, fmt.Sprintf("d/read/%d", i), root, cf, b.dev)
 		var fsys *squashfs.FileSystem
 		err, _ := safely(func() error {
 			var e error
@@ -180,6 +181,7 @@ func correspondence(c *hx.Ctx) {
 		if b.err != nil {
 			continue
 		}
+		regionCase(c, id, root, cf, b.dev)
 		sb := parseSB(b.dev.Bytes(cf.start, 96))
 		if sb.magic != 0x73717368 || sb.bytesUsed > 4<<20 {
 			continue
